@@ -234,13 +234,18 @@ Lemma c19_up4_exact (meth : string) (d : doc) (slice_id tc : N) :
   let cd := calculate_bit_rates (d_dl d) (d_unit d) in
   r_writes (serve (Up4 slice_id tc) meth (Decoded d)) =
   [ WUp4 (MeterWrite 2 336833095 (Z.of_N (4 * slice_id + tc)) 0 0
-            (int64_of_uint64 (N.max cu cd)) (int64_of_uint64 (if cd <? cu then d_ulb d else d_dlb d))) ].
+            (int64_of_uint64 (N.max cu cd))
+            (Z.of_N (N.min (if cd <? cu then d_ulb d else d_dlb d) (2 ^ 63 - 1)))) ].
 Proof.
   intros H Hs Ht cu cd. rewrite serve_decoded by assumption. cbn [r_writes add_slice_info].
   unfold up4_add_slice_info, slice_info_of. cbn [s_ul s_dl s_ulb s_dlb]. fold cu cd.
   rewrite meter_index_ok by assumption.
   rewrite (Z.mod_small (Z.of_N (4 * slice_id + tc)) (2 ^ 32)) by lia.
-  destruct (N.ltb_spec cd cu) as [L|L]; cbn [map].
+  assert (C : forall b : N, int64_of_uint64 (if max_int64 <? b then max_int64 else b) = Z.of_N (N.min b (2 ^ 63 - 1))).
+  { intros b. unfold max_int64. destruct (N.ltb_spec (2 ^ 63 - 1) b).
+    - rewrite N.min_r by lia. apply int64_small. lia.
+    - rewrite N.min_l by lia. apply int64_small. lia. }
+  destruct (N.ltb_spec cd cu) as [L|L]; cbn [map]; rewrite C.
   - now rewrite N.max_l by lia.
   - now rewrite N.max_r by lia.
 Qed.
@@ -258,41 +263,36 @@ Qed.
 Lemma c19_programs_up4 (meth : string) (d : doc) (slice_id tc : N) :
   meth = "PUT"%string \/ meth = "POST"%string -> slice_id < 16 -> tc < 4 ->
   rate_ok (d_ul d) (d_unit d) -> rate_ok (d_dl d) (d_unit d) ->
-  d_ulb d < 2 ^ 63 -> d_dlb d < 2 ^ 63 ->
   serve (Up4 slice_id tc) meth (Decoded d) =
   Result [201]
          (up4_meter_spec slice_id tc (d_ul d * unit_of (d_unit d)) (d_dl d * unit_of (d_unit d))
                          (d_ulb d) (d_dlb d))
          (Some (stored_spec d (d_ul d * unit_of (d_unit d)) (d_dl d * unit_of (d_unit d)))).
 Proof.
-  intros H Hs Ht Ru Rd Bu Bd.
+  intros H Hs Ht Ru Rd.
   pose proof (c19_up4_exact meth d slice_id tc H Hs Ht) as W. cbv zeta in W.
   rewrite serve_decoded in * by assumption. cbn [r_writes] in W. rewrite W.
   unfold slice_info_of, up4_meter_spec, stored_spec.
   rewrite (c19_units _ _ Ru), (c19_units _ _ Rd).
   destruct Ru as [_ Fu], Rd as [_ Fd].
   rewrite (int64_small (N.max _ _)) by lia.
-  set (c := d_dl d * unit_of (d_unit d) <? d_ul d * unit_of (d_unit d)).
-  rewrite (int64_small (if c then _ else _)) by (destruct c; assumption).
   reflexivity.
 Qed.
 
 Definition put_post (meth : string) : Prop := meth = "PUT"%string \/ meth = "POST"%string.
 
-(* the statement without the bound on the bursts is false: MeterConfig.pburst is an int64 *)
-Lemma c19_programs_up4_refuted :
-  exists (meth : string) (d : doc) (slice_id tc : N),
-    put_post meth /\ wf_doc d /\ slice_id < 16 /\ tc < 4 /\
-    rate_ok (d_ul d) (d_unit d) /\ rate_ok (d_dl d) (d_unit d) /\
-    r_writes (serve (Up4 slice_id tc) meth (Decoded d)) <>
-    up4_meter_spec slice_id tc (d_ul d * unit_of (d_unit d)) (d_dl d * unit_of (d_unit d))
-                   (d_ulb d) (d_dlb d).
+(* pburst is never negative and is the posted burst whenever that fits in an int64 *)
+Lemma c19_up4_burst_carried (meth : string) (d : doc) (slice_id tc : N) :
+  meth = "PUT"%string \/ meth = "POST"%string -> slice_id < 16 -> tc < 4 ->
+  exists m, r_writes (serve (Up4 slice_id tc) meth (Decoded d)) = [WUp4 m] /\
+    (0 <= m_pburst m < 2 ^ 63)%Z /\
+    let b := if calculate_bit_rates (d_dl d) (d_unit d) <? calculate_bit_rates (d_ul d) (d_unit d)
+             then d_ulb d else d_dlb d in
+    (b < 2 ^ 63 -> m_pburst m = Z.of_N b) /\ (2 ^ 63 <= b -> m_pburst m = (2 ^ 63 - 1)%Z).
 Proof.
-  exists "POST"%string, (Doc "s" 1 1 "Mbps" 1000 (2 ^ 63) []), 0, 3.
-  split; [now right|]. split; [unfold wf_doc; cbn; lia|].
-  split; [lia|]. split; [lia|].
-  split; [unfold rate_ok; cbn; lia|]. split; [unfold rate_ok; cbn; lia|].
-  vm_compute. discriminate.
+  intros H Hs Ht. pose proof (c19_up4_exact meth d slice_id tc H Hs Ht) as W. cbv zeta in W.
+  eexists. split; [exact W|]. cbn [m_pburst]. cbv zeta.
+  set (b := if _ <? _ then d_ulb d else d_dlb d). lia.
 Qed.
 
 Lemma c19_error_untouched (dp : datapath) (meth : string) (b : body) :
